@@ -1609,7 +1609,7 @@ in 4 borrowed/owned patterns, arguments at/one before/one past/inside every segm
 CowBytes operation sequences, accessor sets and comparison pairs; one case = one operation sequence (or one accessor set / pair); \
 non-trivial = at least one operation of the sequence is in range while the chain holds bytes before or after it; distinct by \
 initial chain + operation list";
-    let mut rep = Report::new("chain", &args, rule);
+    let mut rep = Report::new(if args.flag("--light") { "chain-dbgassert" } else { "chain" }, &args, rule);
     let driver = args.driver.as_deref();
     let rng = Rng::new(args.seed);
     let mut steps: HashMap<String, String> = HashMap::new();
@@ -1647,10 +1647,18 @@ initial chain + operation list";
     let mut jobs: Vec<(Vec<SegSpec>, usize, usize)> = vec![];
     // (depth from every chain, depth from the `deep` chains, depth from the mixed `deep` chains over
     //  the reduced payload alphabet, all steps below this depth go to the model, sampling of deeper steps)
-    let (d_all, d_deep, d_reduced, keep_depth, sample) = match args.tier {
-        Tier::Quick => (3, 3, 4, 2, 3),
-        Tier::Thorough => (4, 4, 5, 3, 60),
+    // `--light`: the second pass of bin/check, built with the repo's debug assertions (LongChain's own
+    // `verify_invariants`) and overflow checks switched on as additional oracles
+    let light = args.flag("--light");
+    let (d_all, d_deep, d_reduced, keep_depth, sample) = match (args.tier, light) {
+        (Tier::Quick, false) => (3, 3, 4, 2, 3),
+        (Tier::Thorough, false) => (4, 4, 5, 3, 60),
+        (Tier::Quick, true) => (2, 2, 3, 2, 4),
+        (Tier::Thorough, true) => (3, 3, 4, 2, 8),
     };
+    if light {
+        rep.notes.push(format!("light pass (debug assertions {}): LongChain::verify_invariants and overflow checks act as additional oracles", if cfg!(debug_assertions) { "ON" } else { "off" }));
+    }
     if let Some(d) = args.opt("--depth").and_then(|s| s.parse::<usize>().ok()) {
         for c in &all {
             jobs.push((c.clone(), d, 0));
@@ -1716,9 +1724,11 @@ initial chain + operation list";
     }
 
     // random
-    let (n_random, n_random_steps) = match args.tier {
-        Tier::Quick => (600, 600),
-        Tier::Thorough => (40_000, 4_000),
+    let (n_random, n_random_steps) = match (args.tier, light) {
+        (Tier::Quick, false) => (600, 600),
+        (Tier::Thorough, false) => (40_000, 4_000),
+        (Tier::Quick, true) => (300, 100),
+        (Tier::Thorough, true) => (8_000, 500),
     };
     let mut r2 = rng.fork(2);
     let mut random_fail_cats: BTreeMap<&str, usize> = BTreeMap::new();
